@@ -195,6 +195,29 @@ fn cids_of_interest(stream: &[u8], has_ex: bool) -> Vec<i32> {
     v
 }
 
+/// ` P <cid:x:y,…> I <cid:v0:…:v9,…>`: what `player_pos` / `input` return after the last call for
+/// every client id that occurred in an emitted table item (every table entry was created by a
+/// `PlayerNew` / `Input` item), ascending; entries that are `None` are left out.
+fn access_str(evs: &[Ev], pos: &dyn Fn(i32) -> Option<(i32, i32)>, inp: &dyn Fn(i32) -> Option<[i32; 10]>) -> String {
+    let mut cids: Vec<i32> = evs
+        .iter()
+        .filter_map(|e| match e {
+            Ev::New(c, _, _) | Ev::Change(c, _, _, _, _) | Ev::Old(c, _, _) | Ev::Input(c, _) => Some(*c),
+            _ => None,
+        })
+        .filter(|c| *c >= 0)
+        .collect();
+    cids.sort();
+    cids.dedup();
+    let ps: Vec<String> = cids.iter().filter_map(|&c| pos(c).map(|(x, y)| format!("{}:{}:{}", c, x, y))).collect();
+    let is: Vec<String> = cids
+        .iter()
+        .filter_map(|&c| inp(c).map(|v| format!("{}:{}", c, v.iter().map(|x| x.to_string()).collect::<Vec<_>>().join(":"))))
+        .collect();
+    let j = |l: Vec<String>| if l.is_empty() { "-".to_string() } else { l.join(",") };
+    format!("P {} I {}", j(ps), j(is))
+}
+
 /// Reads header + stream with the given read sizes; `Err` = the reader panicked.
 fn read_all(total: &[u8], ds: &[usize]) -> Result<Out, String> {
     read_all_q(total, ds, &[])
@@ -213,7 +236,7 @@ fn read_all_q(total: &[u8], ds: &[usize], ask: &[i32]) -> Result<Out, String> {
             Ok(x) => x,
             Err(e) => {
                 let fin = format!("err:{}", err_str(&e));
-                return Out { line: format!("{} 0 0 -", fin), evs, fin, header_version: None, cids_end: 0, final_pos: vec![], final_inp: vec![] };
+                return Out { line: format!("{} 0 0 - P - I -", fin), evs, fin, header_version: None, cids_end: 0, final_pos: vec![], final_inp: vec![] };
             }
         };
         let mut items: Vec<String> = vec![];
@@ -236,7 +259,8 @@ fn read_all_q(total: &[u8], ds: &[usize], ask: &[i32]) -> Result<Out, String> {
             }
         }
         let maxcid = rd.cids().end;
-        let line = format!("{} {} {} {}", fin, maxcid, items.len(), if items.is_empty() { "-".to_string() } else { items.join(" ") });
+        let acc = access_str(&evs, &|c| rd.player_pos(c).map(|p| (p.x, p.y)), &|c| rd.input(c));
+        let line = format!("{} {} {} {} {}", fin, maxcid, items.len(), if items.is_empty() { "-".to_string() } else { items.join(" ") }, acc);
         let final_pos = ask.iter().map(|&c| (c, rd.player_pos(c).map(|p| (p.x, p.y)))).collect();
         let final_inp = ask.iter().map(|&c| (c, rd.input(c))).collect();
         Out { line, evs, fin, header_version: Some(ver), cids_end: maxcid, final_pos, final_inp }
@@ -298,7 +322,7 @@ fn read_all_file(total: &[u8], ds: &[usize], ask: &[i32]) -> Result<Out, String>
             Ok(x) => x,
             Err(e) => {
                 let fin = format!("err:{}", ferr(&e));
-                return Out { line: format!("{} 0 0 -", fin), evs, fin, header_version: None, cids_end: 0, final_pos: vec![], final_inp: vec![] };
+                return Out { line: format!("{} 0 0 - P - I -", fin), evs, fin, header_version: None, cids_end: 0, final_pos: vec![], final_inp: vec![] };
             }
         };
         let mut items: Vec<String> = vec![];
@@ -321,7 +345,8 @@ fn read_all_file(total: &[u8], ds: &[usize], ask: &[i32]) -> Result<Out, String>
             }
         }
         let maxcid = rd.cids().end;
-        let line = format!("{} {} {} {}", fin, maxcid, items.len(), if items.is_empty() { "-".to_string() } else { items.join(" ") });
+        let acc = access_str(&evs, &|c| rd.player_pos(c).map(|p| (p.x, p.y)), &|c| rd.input(c));
+        let line = format!("{} {} {} {} {}", fin, maxcid, items.len(), if items.is_empty() { "-".to_string() } else { items.join(" ") }, acc);
         let final_pos = ask.iter().map(|&c| (c, rd.player_pos(c).map(|p| (p.x, p.y)))).collect();
         let final_inp = ask.iter().map(|&c| (c, rd.input(c))).collect();
         Out { line, evs, fin, header_version: Some(ver), cids_end: maxcid, final_pos, final_inp }
@@ -600,8 +625,6 @@ fn doc_ticks(msgs: &[Msg]) -> Vec<i64> {
     out
 }
 
-const HUGE_CID: i32 = 1 << 17;
-
 /// The records end with FINISH, every PLAYER_DIFF/PLAYER_OLD/INPUT_DIFF refers to a player/input
 /// that exists, no player is created twice, client ids of table records are non-negative and the
 /// documentation's tick numbers stay within `i32`.
@@ -722,8 +745,8 @@ fn oracle_structure(stream: &[u8], has_ex: bool, out: &Out, o: &mut Oracle, ctx:
         let ok = match (m, ev) {
             (Msg::New(c, x, y), Ev::New(c2, x2, y2)) => {
                 pos.insert(*c, (*x as i64, *y as i64));
-                if *c >= HUGE_CID {
-                    o.fail("C17/unbounded-cid-allocation", format!("PLAYER_NEW with cid {} accepted: the tables are resized to cid+1 slots {}", c, ctx));
+                if *c >= 1 << 17 {
+                    o.add("player_new_cid_ge_2^17_accepted", 1);
                 }
                 (c, x, y) == (c2, x2, y2)
             }
@@ -746,8 +769,8 @@ fn oracle_structure(stream: &[u8], has_ex: bool, out: &Out, o: &mut Oracle, ctx:
                     s[k] = a[k] as i64;
                 }
                 inp.insert(*c, s);
-                if *c >= HUGE_CID {
-                    o.fail("C17/unbounded-cid-allocation", format!("INPUT_NEW with cid {} accepted: the tables are resized to cid+1 slots {}", c, ctx));
+                if *c >= 1 << 17 {
+                    o.add("input_new_cid_ge_2^17_accepted", 1);
                 }
                 c == c2 && a == b
             }
@@ -848,6 +871,71 @@ fn oracle_header(total: &[u8], ver: &str, out: &Out, failing: bool, o: &mut Orac
 }
 
 // ---------------------------------------------------------------------------------------------
+// resource use (the part of C17 that finding D18 was about): the memory one reader run allocates
+// is bounded by a small multiple of the input, whatever the client ids are.
+//
+// The counting `#[global_allocator]` of the harness binary lives in `d_snap.rs` (exactly one is
+// allowed per binary; C11 needed it first).  A harness `run` process executes its requests on one
+// thread (the watchdog thread only sleeps), so the global counters measure this thread.
+use crate::domains::d_snap::alloc_count;
+
+/// peak ≤ ALLOC_SLACK + ALLOC_FACTOR · input bytes.  What the reader legitimately needs: the
+/// buffer (amortised doubling: ≤ 2 · input + `BUFFER_SIZE`) and one map entry per live
+/// PLAYER_NEW (≥ 4 input bytes, 16 bytes of payload) / INPUT_NEW (≥ 12 input bytes, 48 bytes of
+/// payload) plus B-tree node slack — below 16 · input.  Before the repair of D18 a 5-byte record
+/// with client id c cost 12·(c+1) bytes (players) or 44·(c+1) bytes (inputs).
+const ALLOC_FACTOR: usize = 64;
+const ALLOC_SLACK: usize = 1 << 20;
+
+/// One reader run (in-process `verif::Reader`, read sizes `ds`) that keeps nothing but counters;
+/// returns the peak number of bytes allocated during the run over what was allocated before it.
+/// `None`: the reader panicked (reported by the caller's own pass).
+fn alloc_probe(total: &[u8], ds: &[usize]) -> Option<usize> {
+    let mut cb = FragCb { data: total.to_vec(), pos: 0, ds: ds.iter().cloned().collect(), calls: 0 };
+    let r = catch(move || {
+        alloc_count::measure(move || {
+            let mut buf = Buffer::new();
+            let mut n = 0u64;
+            if let Ok((_, mut rd)) = Reader::new(&mut cb, &mut buf) {
+                while let Ok(Some(_)) = rd.read(&mut cb, &mut buf) {
+                    n += 1;
+                }
+                // the accessors must not allocate by client id either
+                n += rd.cids().end as u64;
+            }
+            n
+        })
+        .1
+    });
+    r.ok()
+}
+
+fn oracle_alloc(total: &[u8], ds: &[usize], o: &mut Oracle, ctx: &str) {
+    if let Some(peak) = alloc_probe(total, ds) {
+        o.add("alloc_probes", 1);
+        o.count(match peak {
+            0..=16384 => "alloc_peak:<=16KiB",
+            16385..=65536 => "alloc_peak:<=64KiB",
+            65537..=1048576 => "alloc_peak:<=1MiB",
+            _ => "alloc_peak:>1MiB",
+        });
+        if peak > ALLOC_SLACK + ALLOC_FACTOR * total.len() {
+            o.fail(
+                "C17/allocation-not-bounded-by-input",
+                format!(
+                    "one reader run over {} input bytes allocated {} bytes at its peak (bound {} + {}·input) {}",
+                    total.len(),
+                    peak,
+                    ALLOC_SLACK,
+                    ALLOC_FACTOR,
+                    ctx
+                ),
+            );
+        }
+    }
+}
+
+// ---------------------------------------------------------------------------------------------
 // runner
 
 struct R;
@@ -876,6 +964,8 @@ impl Runner for R {
                 if let Ok(a) = &r {
                     oracle_header(&total, ver, a, failing, o, frag);
                 }
+                // resource use of one reader run under this request's fragmentation
+                oracle_alloc(&total, &ds, o, &format!("(frag={})", frag));
                 match (&r, &whole) {
                     (Ok(a), Ok(Some(b))) if failing => {
                         // a failing callback: its error after a prefix of the items, or no difference
@@ -925,6 +1015,9 @@ impl Runner for R {
                     Ok(_) => {}
                     Err(p) => o.fail("C17/panic", format!("unfragmented {}", p)),
                 }
+                oracle_alloc(&total, &[], o, "(unfragmented)");
+                oracle_alloc(&total, &[total.len() / 2], o, &format!("(frag=s:{})", total.len() / 2));
+                oracle_alloc(&total, &vec![1; total.len()], o, "(frag=b)");
                 let mut hsh = FNV_OFFSET;
                 for k in 0..=total.len() {
                     let line = match read_all(&total, &[k]) {
@@ -971,6 +1064,7 @@ impl Runner for R {
                         }
                         (Err(p), _) | (_, Err(p)) => o.fail("C17/panic", format!("stream={} {}", to_hex(&total[hl..]), p)),
                     }
+                    oracle_alloc(&total, &[], o, &format!("(stream={})", to_hex(&total[hl..])));
                     for r in [&w, &b] {
                         let line = r.as_ref().map(|x| x.line.clone()).unwrap_or("panic".to_string());
                         hsh = fnv_bytes(hsh, line.as_bytes());
@@ -1213,6 +1307,7 @@ fn write_other(w: &mut W, rng: &mut Rng, ver: u32, cid: i32, big: bool) {
 /// Writer state per doc/teehistorian.md: which tick the stream is in and the implicit cid.
 struct Hist {
     w: W,
+    #[allow(dead_code)]
     ver: u32,
     players: BTreeMap<i32, ()>,
     inputs: BTreeMap<i32, ()>,
@@ -1233,8 +1328,28 @@ impl Hist {
         if implicit_ok && !rng.chance(1, 10) {
             // the player record itself advances the tick
         } else {
-            self.w.int(item::TICK_SKIP);
-            self.w.int(dt as i32);
+            // one TICK_SKIP, or — when at least two ticks are to be skipped, every second time — a
+            // run of 2–4 consecutive TICK_SKIPs that advance by the same amount in total (the
+            // second and later ones arrive while no tick is open; seeded change C17-6)
+            let adv = dt + 1;
+            let k = if adv >= 2 && rng.chance(1, 2) { (2 + rng.below(3) as i64).min(adv) } else { 1 };
+            let mut parts = vec![1i64; k as usize];
+            let extra = adv - k;
+            if rng.chance(1, 2) {
+                let j = rng.below(k as u64) as usize;
+                parts[j] += extra;
+            } else {
+                let mut left = extra;
+                for j in 0..k as usize {
+                    let take = if j + 1 == k as usize { left } else { rng.below(left as u64 + 1) as i64 };
+                    parts[j] += take;
+                    left -= take;
+                }
+            }
+            for a in parts {
+                self.w.int(item::TICK_SKIP);
+                self.w.int((a - 1) as i32);
+            }
             self.implicit_cid = None;
         }
         self.written_tick = tick;
@@ -1244,16 +1359,57 @@ impl Hist {
     }
 }
 
+/// Varint length boundaries and the ends of the accepted client id range.
+const CID_BOUNDARY: &[i32] = &[
+    0, 1, 62, 63, 64, 65, 8191, 8192, 8193, 1 << 17, (1 << 20) - 1, 1 << 20, 1 << 24, (1 << 27) - 1, 1 << 27, 1 << 30,
+    i32::MAX - 2, i32::MAX - 1, i32::MAX,
+];
+
+/// The client ids of one history, strictly increasing: slot k of the server is client id `pal[k]`.
+/// Two thirds of the histories use 0..n as a server does; the others spread their players over the
+/// whole accepted range 0 ..= i32::MAX (the reader's tables are sparse maps since the repair of D18).
+fn cid_palette(rng: &mut Rng, n: usize) -> Vec<i32> {
+    if !rng.chance(1, 3) {
+        return (0..n as i32).collect();
+    }
+    let mut set = std::collections::BTreeSet::new();
+    while set.len() < n {
+        let c = match rng.below(4) {
+            0 => *rng.pick(CID_BOUNDARY),
+            1 => rng.below(300) as i32,
+            2 => (rng.next() as i32) & i32::MAX,
+            _ => {
+                // next to a boundary value
+                let b = *rng.pick(CID_BOUNDARY) as i64 + rng.range(-3, 3);
+                b.clamp(0, i32::MAX as i64) as i32
+            }
+        };
+        set.insert(c);
+    }
+    set.into_iter().collect()
+}
+
+fn negative_cid(rng: &mut Rng) -> i32 {
+    match rng.below(3) {
+        0 => *rng.pick(&[-1, -2, -64, -65, -8192, -8193, i32::MIN, i32::MIN + 1]),
+        1 => -1 - rng.below(100) as i32,
+        _ => (rng.next() as i32) | i32::MIN,
+    }
+}
+
 /// A valid stream from a random server history.
 fn gen_history(rng: &mut Rng, ver: u32, size: usize, big: bool) -> Vec<u8> {
     let max_cid: i32 = *rng.pick(&[4, 16, 64, 64, 200]);
+    let pal = cid_palette(rng, max_cid as usize);
+    // one history in eight contains a record with a negative client id somewhere (InvalidClientId)
+    let mut inject_neg = rng.chance(1, 8);
     let mut hst = Hist { w: W(vec![]), ver, players: BTreeMap::new(), inputs: BTreeMap::new(), written_tick: 0, implicit_cid: None, first_in_stream: true };
     let mut tick: i64 = if rng.chance(1, 3) { rng.below(5) as i64 } else { 0 };
     let mut pos_big = rng.chance(1, 5);
     while hst.w.0.len() < size {
         // players block, ascending cids (the server writes them this way)
         let mut wrote = false;
-        let cids: Vec<i32> = (0..max_cid).filter(|_| rng.chance(1, 3)).collect();
+        let cids: Vec<i32> = pal.iter().cloned().filter(|_| rng.chance(1, 3)).collect();
         for cid in cids {
             let present = hst.players.contains_key(&cid);
             if !present {
@@ -1287,7 +1443,7 @@ fn gen_history(rng: &mut Rng, ver: u32, size: usize, big: bool) -> Vec<u8> {
         // inputs, messages, joins, drops, commands, extension records
         let n = rng.below(5);
         for _ in 0..n {
-            let cid = rng.range(0, max_cid as i64 - 1) as i32;
+            let cid = *rng.pick(&pal);
             hst.enter_tick(rng, tick, None);
             wrote = true;
             if rng.chance(1, 2) {
@@ -1324,6 +1480,29 @@ fn gen_history(rng: &mut Rng, ver: u32, size: usize, big: bool) -> Vec<u8> {
             }
         }
         let _ = wrote;
+        if inject_neg && rng.chance(1, 5) {
+            inject_neg = false;
+            let c = negative_cid(rng);
+            match rng.below(4) {
+                0 => {
+                    hst.w.int(item::PLAYER_NEW);
+                    hst.w.int(c);
+                    hst.w.int(rand_i32(rng));
+                    hst.w.int(rand_i32(rng));
+                }
+                1 => {
+                    hst.w.int(item::PLAYER_OLD);
+                    hst.w.int(c);
+                }
+                k => {
+                    hst.w.int(if k == 2 { item::INPUT_NEW } else { item::INPUT_DIFF });
+                    hst.w.int(c);
+                    for _ in 0..10 {
+                        hst.w.int(rand_i32(rng));
+                    }
+                }
+            }
+        }
         pos_big = pos_big && rng.chance(9, 10);
         // next server tick: usually the next one, sometimes a gap (idle server)
         tick += if rng.chance(1, 5) { 1 + rng.below(4) as i64 } else { 1 };
@@ -1331,6 +1510,13 @@ fn gen_history(rng: &mut Rng, ver: u32, size: usize, big: bool) -> Vec<u8> {
             tick += rng.below(100000) as i64;
         }
         hst.first_in_stream = false;
+    }
+    if rng.chance(1, 6) {
+        // a run of TICK_SKIPs right before FINISH
+        for _ in 0..2 + rng.below(3) {
+            hst.w.int(item::TICK_SKIP);
+            hst.w.int(*rng.pick(&[0, 0, 1, 5, 100000]));
+        }
     }
     if !rng.chance(1, 10) {
         hst.w.int(item::FINISH);
@@ -1364,22 +1550,7 @@ fn frag_random(rng: &mut Rng, total: usize) -> String {
     format!("l:{}", v.join(","))
 }
 
-/// Finding D18: a PLAYER_NEW / INPUT_NEW record makes the reader resize its tables to cid+1 slots,
-/// so a corrupted client id costs gigabytes.  The generator therefore drops streams in which such
-/// a record carries a client id of `GEN_MAX_CID` or more (the one guarded probe lives in the corpus).
-const GEN_MAX_CID: i32 = 100_000;
-
-fn safe(ver: u32, stream: &[u8]) -> bool {
-    split_records(stream, ver != 1).iter().all(|m| match m {
-        Msg::New(c, _, _) | Msg::InputNew(c, _) => *c < GEN_MAX_CID,
-        _ => true,
-    })
-}
-
 fn emit(w: &mut dyn Write, op: &str, ver: u32, hdr: &[u8], stream: &[u8], frag: &str) {
-    if !safe(ver, stream) {
-        return;
-    }
     if op == "all2" {
         writeln!(w, "all2 {} {} {}", ver, to_hex(hdr), to_hex(stream)).unwrap();
     } else {
@@ -1603,6 +1774,157 @@ fn boundary_streams() -> Vec<(u32, Vec<u8>)> {
         w.data(&[5, 1, 2, 3]);
         fin(w);
     });
+    // client ids over the whole accepted range (the tables are sparse maps since the repair of
+    // D18): every table operation on one large id, at the varint length boundaries and at the top
+    for c in [63, 64, 8191, 8192, 1 << 17, (1 << 20) - 1, 1 << 20, 1 << 24, (1 << 27) - 1, 1 << 27, i32::MAX - 1, i32::MAX] {
+        add(2, &move |w| {
+            new(w, c, 1, 2);
+            diff(w, c, 3, 4);
+            w.int(item::INPUT_NEW);
+            w.int(c);
+            for k in 0..10 {
+                w.int(k);
+            }
+            w.int(item::INPUT_DIFF);
+            w.int(c);
+            for k in 0..10 {
+                w.int(-2 * k);
+            }
+            w.int(item::PLAYER_OLD);
+            w.int(c);
+            fin(w);
+        });
+    }
+    // several players at the top of the range: implicit ticks decided by comparisons of huge ids,
+    // re-creation after PLAYER_OLD, a duplicate
+    add(2, &|w| {
+        new(w, 0, 0, 0);
+        new(w, i32::MAX - 1, 10, 10);
+        new(w, i32::MAX, 20, 20);
+        diff(w, i32::MAX - 1, 1, 1);
+        diff(w, i32::MAX, 1, 1);
+        diff(w, i32::MAX, 1, 1);
+        diff(w, 0, 1, 1);
+        w.int(item::PLAYER_OLD);
+        w.int(i32::MAX - 1);
+        diff(w, i32::MAX, i32::MAX, i32::MIN);
+        new(w, i32::MAX - 1, -5, -5);
+        w.int(item::PLAYER_OLD);
+        w.int(i32::MAX);
+        fin(w);
+    });
+    add(2, &|w| {
+        new(w, i32::MAX, 1, 1);
+        new(w, i32::MAX, 2, 2);
+    });
+    add(2, &|w| {
+        new(w, 1 << 24, 1, 1);
+        diff(w, (1 << 24) + 1, 1, 1);
+    });
+    add(2, &|w| {
+        new(w, 1 << 24, 1, 1);
+        w.int(item::PLAYER_OLD);
+        w.int((1 << 24) - 1);
+    });
+    add(2, &|w| {
+        w.int(item::INPUT_NEW);
+        w.int(i32::MAX);
+        for _ in 0..10 {
+            w.int(i32::MAX);
+        }
+        w.int(item::INPUT_DIFF);
+        w.int(i32::MAX - 1);
+        for _ in 0..10 {
+            w.int(1);
+        }
+    });
+    // negative client ids in every table record, first in the stream and inside an open tick
+    for c in [-1, -2, -64, -65, i32::MIN] {
+        for kind in 0..4 {
+            for lead in [false, true] {
+                add(2, &move |w| {
+                    if lead {
+                        new(w, 5, 0, 0);
+                        w.int(item::INPUT_NEW);
+                        w.int(5);
+                        for _ in 0..10 {
+                            w.int(1);
+                        }
+                    }
+                    match kind {
+                        0 => new(w, c, 1, 1),
+                        1 => {
+                            w.int(item::PLAYER_OLD);
+                            w.int(c);
+                        }
+                        k => {
+                            w.int(if k == 2 { item::INPUT_NEW } else { item::INPUT_DIFF });
+                            w.int(c);
+                            for _ in 0..10 {
+                                w.int(0);
+                            }
+                        }
+                    }
+                    fin(w);
+                });
+            }
+        }
+    }
+    // runs of 2–4 consecutive TICK_SKIPs (dt 0 / 1 / large / mixed) after a tick with player records,
+    // followed at once by a player record with a lower (PLAYER_DIFF) / equal (PLAYER_OLD) / higher
+    // (PLAYER_NEW) client id; the same at the start of the stream and right before FINISH
+    // (seeded change C17-6: `prev_player_cid` not cleared by a TICK_SKIP that arrives outside a tick)
+    for run in 2..=4usize {
+        for pat in 0..4usize {
+            let dts: Vec<i32> = (0..run)
+                .map(|j| match pat {
+                    0 => 0,
+                    1 => 1,
+                    2 => 1000000 + j as i32,
+                    _ => [0, 3, 0, 70000][j],
+                })
+                .collect();
+            for follow in 0..3 {
+                let dts = dts.clone();
+                add(2, &move |w| {
+                    new(w, 2, 0, 0);
+                    new(w, 5, 0, 0);
+                    for &dt in &dts {
+                        skip(w, dt);
+                    }
+                    match follow {
+                        0 => diff(w, 2, 1, 1),
+                        1 => {
+                            w.int(item::PLAYER_OLD);
+                            w.int(5);
+                        }
+                        _ => new(w, 7, 3, 3),
+                    }
+                    diff(w, 2, 1, 1);
+                    skip(w, 0);
+                    diff(w, 2, 1, 1);
+                    fin(w);
+                });
+            }
+            let dts2 = dts.clone();
+            add(2, &move |w| {
+                for &dt in &dts2 {
+                    skip(w, dt);
+                }
+                new(w, 0, 0, 0);
+                diff(w, 0, 1, 1);
+                fin(w);
+            });
+            let dts3 = dts.clone();
+            add(2, &move |w| {
+                new(w, 1, 0, 0);
+                for &dt in &dts3 {
+                    skip(w, dt);
+                }
+                fin(w);
+            });
+        }
+    }
     // D11 shape: player record, explicit skip, lower cid
     add(2, &|w| {
         new(w, 2, 0, 0);
